@@ -59,8 +59,8 @@ def run(ctx):
     rep = ctx.rep
     rep.not_decided += ['XDR well-formedness of every body for all inputs beyond the padding rule and the fixed word sequences', 'the call parser\'s accepted language (credential/verifier lengths)']
     br, pm, rt, ru = F.fn(R + 'build_repl'), F.fn(R + 'build_repl_portmap'), F.fn(R + 'repl_tcp'), F.fn(R + 'repl_udp')
-    psp, pu32, gnb = F.fn(R + 'push_string_pad'), F.fn(R + 'push_u32'), F.fn(R + 'get_nth_byte')
-    rep.saw(br, pm, rt, ru, psp, pu32, gnb)
+    psp, pu32, gnb = F.fn(R + 'push_string_pad'), F.fn(R + 'push_u32'), F.fns.get(R + 'get_nth_byte')
+    rep.saw(br, pm, rt, ru, psp, pu32, *([gnb] if gnb else []))
 
     r1 = rep.rule('C16-R1', 'reply header: XID of the call first, then message type 1 (reply), reply state 0 (accepted), null verifier; words are emitted big-endian', floor=5)
     items = vec_layout(br)
@@ -86,26 +86,29 @@ def run(ctx):
             okx = isinstance(ns, tuple) and ns[0] == 'agg' and ns[1].endswith('RpcState::MessageType')
     rep.check(r1, okx, 'xid-parsed', 'the Xid state accumulates into pstate.xid and continues with MessageType: %s' % okx)
     # big-endian byte extraction, exhaustively on nth and on bit patterns
-    okb = True
-    for v in [0x01020304, 0xfffefdfc, 0x80000001, 0x00000000, 0x12345678]:
-        got = [eval_fn(gnb, [v, n]) for n in range(4)]
-        if got != list(v.to_bytes(4, 'big')):
-            okb = False
-    # ... and for every value: bit provenance of the returned byte for nth = 0..3
-    from vlib.bits import BitEval, describe
-    rets_ = gnb.return_blocks()
-    okbits, shown = len(rets_) == 1, []
-    if okbits:
-        rv_ = gnb.ret_value(rets_[0])
-        for n_ in range(4):
-            e_ = rewrite(rv_, lambda x: ('const', n_, None, 'u8') if x == ('param', 2) else None)
-            b_ = BitEval(lambda x: ('value', 32) if x == ('param', 1) else None).bits(e_)
-            want_ = [('in', 'value', 8 * (3 - n_) + k) for k in range(8)]
-            got_ = (b_ + [0] * 32)[:32] if b_ is not None else None
-            if got_ is None or got_[:8] != want_ or any(x != 0 for x in got_[8:]):
-                okbits = False
-            shown.append(describe(b_[:8]) if b_ else '?')
-    rep.check(r1, okb and okbits, 'get_nth_byte:big-endian', 'get_nth_byte(v, n) = bits 8(3-n)..8(3-n)+7 of v for n = 0..3, bit-exact for every v (%s); concrete evaluation on 5 patterns agrees: %s' % (' | '.join(shown), okb), '%s:%d' % (gnb.file, gnb.line))
+    if gnb is None:
+        rep.ok(r1, 'get_nth_byte:big-endian', 'no hand-written byte extraction helper in this tree (words are emitted with to_be_bytes, see push_u32 / tcp-record-mark)')
+    else:
+        okb = True
+        for v in [0x01020304, 0xfffefdfc, 0x80000001, 0x00000000, 0x12345678]:
+            got = [eval_fn(gnb, [v, n]) for n in range(4)]
+            if got != list(v.to_bytes(4, 'big')):
+                okb = False
+        # ... and for every value: bit provenance of the returned byte for nth = 0..3
+        from vlib.bits import BitEval, describe
+        rets_ = gnb.return_blocks()
+        okbits, shown = len(rets_) == 1, []
+        if okbits:
+            rv_ = gnb.ret_value(rets_[0])
+            for n_ in range(4):
+                e_ = rewrite(rv_, lambda x: ('const', n_, None, 'u8') if x == ('param', 2) else None)
+                b_ = BitEval(lambda x: ('value', 32) if x == ('param', 1) else None).bits(e_)
+                want_ = [('in', 'value', 8 * (3 - n_) + k) for k in range(8)]
+                got_ = (b_ + [0] * 32)[:32] if b_ is not None else None
+                if got_ is None or got_[:8] != want_ or any(x != 0 for x in got_[8:]):
+                    okbits = False
+                shown.append(describe(b_[:8]) if b_ else '?')
+        rep.check(r1, okb and okbits, 'get_nth_byte:big-endian', 'get_nth_byte(v, n) = bits 8(3-n)..8(3-n)+7 of v for n = 0..3, bit-exact for every v (%s); concrete evaluation on 5 patterns agrees: %s' % (' | '.join(shown), okb), '%s:%d' % (gnb.file, gnb.line))
     it4 = pu32.calls(r'IntoIterator>::into_iter$|IntoIterator::into_iter$')
     rg = peel(pu32.argv(it4[0][0], 0), unwraps=False) if it4 else None
     okr = rg is not None and rg[0] == 'agg' and [const_val(x) for x in rg[2]] == [0, 4]
@@ -183,8 +186,15 @@ def run(ctx):
             fs = facts_at(pstates, bi)
             okv = bool(fs) and all(holds(f_, 'prog_version', '==', 3) or holds(f_, 'prog_version', '==', 4) for f_ in fs)
             # address: client_info.ip.dst (directly or through the Rpcb record built from it); port halves: >> 8 and % 256 / & 0xff of port.dst
-            def from_dst(e, path):
+            def from_dst(e, path, bi=bi):
                 e = peel(e, casts=True)
+                for _ in range(3):
+                    # format!("{}", x) of a single value is that value's text
+                    inner = fmt_of(e) if calls_in(e, r'fmt::format$') else None
+                    if inner and not [p_ for p_ in inner[0] if p_[0] == 'lit'] and len(inner[1]) == 1:
+                        e = peel(pm.through_refs(inner[1][0], bi), casts=True)
+                    else:
+                        break
                 if isinstance(e, tuple) and e[0] == 'bin' and e[1] in ('Shr', 'Rem', 'BitAnd'):
                     e = peel(e[2], casts=True)
                 if ci_field(e, path):
@@ -204,15 +214,24 @@ def run(ctx):
             if st['rv']['k'] == 'agg' and st['rv'].get('adt', '').endswith('rpc::Rpcb') and not b['cleanup']:
                 recs.append((bi, pm._through(pm.rvalue(st['rv'], (bi, i)), (bi, i), 0)))
     names = [fl['name'] for fl in F.adts[R + 'Rpcb']['variants'][0]['fields']]
-    okrec = len(recs) == 3
+    okrec = len(recs) in (1, 3)
     vers = []
     for bi, r_ in recs:
         d = dict(zip(names, r_[2]))
-        vers.append(const_val(d['version']))
+        if const_val(d['version']) is not None:
+            vers.append(const_val(d['version']))
+        else:
+            # one record literal inside `for version in [2, 3, 4]`
+            arrs_ = [x for x in walk(d['version']) if isinstance(x, tuple) and x[0] == 'agg' and x[1] == 'array']
+            its_ = calls_in(d['version'], r'::next$')
+            if len(arrs_) == 1 and its_ and all(const_val(y) is not None for y in arrs_[0][2]):
+                vers += [const_val(y) for y in arrs_[0][2]]
+            else:
+                vers.append(None)
         okrec = okrec and const_val(d['program']) == 100000 and ci_field(d['port'], ['port', 'dst']) and any(ci_field(x, ['ip', 'dst']) for x in walk(d['addr']) if isinstance(x, tuple) and x[0] == 'entry')
         nid = sorted(bytes.fromhex(x[1]) for x in walk(d['netid']) if isinstance(x, tuple) and x[0] == 'bytes')
         okrec = okrec and nid == [b'tcp', b'tcp6']
-    rep.check(r5, okrec and sorted(vers) == [2, 3, 4], 'dump-records', 'DUMP lists program 100000 versions %s at (client_info.ip.dst, client_info.port.dst), netid in {tcp, tcp6}' % sorted(vers))
+    rep.check(r5, okrec and None not in vers and sorted(vers) == [2, 3, 4], 'dump-records', 'DUMP lists program 100000 versions %s at (client_info.ip.dst, client_info.port.dst), netid in {tcp, tcp6}' % vers)
     # netid selection by variant: "tcp" on V4 edge
     sel = None
     for bi in range(pm.n):
@@ -268,6 +287,28 @@ def run(ctx):
             later |= rt.reachable(s_)
         ok = ok and not any(p['block'] in later for p in pushes)
         det = 'mark = get_nth_byte(len(reply) as u32, i) for i in 0..4 with |0x80 exactly at i == 0, then the reply: %s' % ok
+    if not ok:
+        # the same four bytes written without a loop: byte-level layout of everything before the reply body
+        body_i = [k for k, it in enumerate(titems) if calls_in(it['value'], r'rpc::build_repl$') != [] and not calls_in(it['value'], r'len$')]
+        if len(body_i) == 1 and body_i[0] == len(titems) - 1 and all(not it['in_loop'] for it in titems):
+            braw = titems[-1].get('raw')
+            while isinstance(braw, tuple) and braw[0] == 'ref':
+                braw = braw[1]
+
+            def src(e):
+                if is_call(e, r'len$') and e[2]:
+                    a_ = e[2][0]
+                    while isinstance(a_, tuple) and a_[0] == 'ref':
+                        a_ = a_[1]
+                    if calls_in(e[2][0], r'rpc::build_repl$') != [] or (braw is not None and a_ == braw):
+                        return ('len', 64)
+                return None
+            bl = byte_layout(rt, titems[:-1], source=src)
+            bits = [x[2] for x in bl]
+            L = lambda k: ('in', 'len', k)
+            want = [[L(k) for k in range(24, 31)] + [1], [L(k) for k in range(16, 24)], [L(k) for k in range(8, 16)], [L(k) for k in range(0, 8)]]
+            ok = bits == want
+            det = 'record mark = big-endian u32 of len(reply) with bit 31 set, bit-exact: %s' % ok
     rep.check(r3, ok, 'tcp-record-mark', det, app[0]['loc'] if app else '')
     for f, nm in [(rt, 'tcp'), (ru, 'udp')]:
         bc = f.calls(r'rpc::build_repl$')
@@ -288,7 +329,31 @@ def run(ctx):
     data_it = [it for it in its if calls_in(it['value'], r'as_bytes$') != []]
     pad_it = [it for it in its if arr_consts(it['value']) == [0] or (it['op'] == 'push' and const_val(it['value']) == 0)]
     ok = len(data_it) == 1 and data_it[0]['must'] and len(pad_it) == 1 and pad_it[0]['in_loop']
-    rep.check(r4, ok, 'bytes-then-pad', 'data appended once, padding byte appended in a loop: %s' % ok)
+    # the same padding written as buffer.resize(buffer.len() + (4 - len % 4) % 4, 0)
+    rz = psp.calls(r'Vec::<[^>]*>::resize$')
+    resize_form = False
+    if not ok and len(data_it) == 1 and data_it[0]['must'] and len(rz) == 1 and not pad_it:
+        def unw(e):
+            e = peel(e, casts=True)
+            if isinstance(e, tuple) and e[0] == 'field' and e[2] == '0':
+                e = peel(e[1], casts=True)
+            return e
+        nl = unw(psp.argv(rz[0][0], 1))
+        okz = const_val(psp.argv(rz[0][0], 2)) == 0 and isinstance(nl, tuple) and nl[0] == 'bin' and nl[1] in ('Add', 'AddWithOverflow')
+        if okz:
+            cur, padx = unw(nl[2]), unw(nl[3])
+            okz = is_call(cur, r'len$') and isinstance(padx, tuple) and padx[0] == 'bin' and padx[1] == 'Rem' and const_val(padx[3]) == 4
+            if okz:
+                inner = unw(padx[2])
+                okz = isinstance(inner, tuple) and inner[0] == 'bin' and inner[1] in ('Sub', 'SubWithOverflow') and const_val(inner[2]) == 4
+                if okz:
+                    m4 = unw(inner[3])
+                    okz = isinstance(m4, tuple) and m4[0] == 'bin' and m4[1] == 'Rem' and const_val(m4[3]) == 4 and calls_in(m4[2], r'len$') != [] and \
+                        all(peel(c[2][0]) == ('param', 2) for c in calls_in(m4[2], r'len$'))
+        # after the data, on every path
+        okz = okz and rz[0][0] in psp.reachable(data_it[0]['block']) and not any(x in psp.reachable(0, removed_blocks=[rz[0][0]]) for x in psp.return_blocks())
+        resize_form = ok = okz
+    rep.check(r4, ok, 'bytes-then-pad', 'data appended once, then zero padding (byte loop, or resize to len + (4 - len %% 4) %% 4): %s' % ok)
     # pad loop bound and guard
     it_ = psp.calls(r'IntoIterator>::into_iter$|IntoIterator::into_iter$')
     okp = False
@@ -302,7 +367,7 @@ def run(ctx):
                 isinstance(peel(hi[3], casts=True), tuple) and peel(hi[3], casts=True)[0] == 'bin' and peel(hi[3], casts=True)[1] == 'Rem' and const_val(peel(hi[3], casts=True)[3]) == 4
         g = ne_edges(psp, lambda a, b: isinstance(peel(a, casts=True), tuple) and peel(a, casts=True)[0] == 'bin' and peel(a, casts=True)[1] == 'Rem' and const_val(peel(a, casts=True)[3]) == 4 and const_val(b) == 0)
         okp = okp and bool(g) and not psp.must_pass(g, [it_[0][0]])
-    rep.check(r4, okp, 'pad-count', 'pad loop runs 0..(4 - len %% 4) and only when len %% 4 != 0: %s' % okp)
+    rep.check(r4, okp or resize_form, 'pad-count', 'pad loop runs 0..(4 - len %% 4) and only when len %% 4 != 0 (or the resize form, which is 0 when aligned): %s' % (okp or resize_form))
 
     r6 = rep.rule('C16-R6', 'call parser: every 32-bit header field, including the credential/verifier lengths, is exactly the big-endian accumulation read_u32(self, byte, <same field>, next state) - no rounding or adjustment; the opaque-body counter only counts down by one per byte', floor=9)
     from rules.c12 import field_writes
